@@ -71,8 +71,37 @@ def main():
         return 2
 
 
+def sweep_scratch():
+    """check.py leaves through os._exit (no atexit): remove this process' scratch directory and the scratch
+    directories of worker processes that are gone (lianverif-<pid>-*)."""
+    import glob
+    import re
+    import shutil
+    import tempfile
+    try:
+        lr = sys.modules.get("harness.lianrun")
+        if lr is not None:
+            lr.cleanup_scratch()
+    except Exception:
+        pass
+    for d in glob.glob(os.path.join(tempfile.gettempdir(), "lianverif-*")):
+        m = re.match(r"lianverif-(?:\w+-)?(\d+)-", os.path.basename(d))
+        if not m:
+            continue
+        try:
+            os.kill(int(m.group(1)), 0)
+        except ProcessLookupError:
+            shutil.rmtree(d, ignore_errors=True)
+        except Exception:
+            pass
+
+
 if __name__ == "__main__":
     sys.stdout.reconfigure(line_buffering=True)
     code = main()
     sys.stdout.flush()
+    try:
+        sweep_scratch()
+    except Exception:
+        pass
     os._exit(code if code in (0, 1, 2) else 2)
